@@ -281,12 +281,12 @@ func numSpec(cs *Case) *spec {
 				} else if x > a {
 					rel = "input-above-parameter"
 				}
+				if x > 1<<31-1 || a > 1<<31-1 || x < -1<<31 || a < -1<<31 {
+					return op + ":operand-beyond-int32"
+				}
 				form := ""
 				if x < 0 || a < 0 {
 					form = ":negative-operand"
-				}
-				if x > 1<<31-1 || a > 1<<31-1 || x < -1<<31 || a < -1<<31 {
-					form = ":beyond-int32"
 				}
 				if strconv.FormatInt(x, 10) != in || strconv.FormatInt(a, 10) != arg {
 					form += ":non-canonical-numeral"
